@@ -1243,9 +1243,9 @@ func (i IZYXSlice) GetBounds() (minPt, maxPt Point3d, err error) {
 	minPt[0] = math.MaxInt32
 	minPt[1] = math.MaxInt32
 	minPt[2] = math.MaxInt32
-	maxPt[0] = -math.MaxInt32 + 1
-	maxPt[1] = -math.MaxInt32 + 1
-	maxPt[2] = -math.MaxInt32 + 1
+	maxPt[0] = math.MinInt32
+	maxPt[1] = math.MinInt32
+	maxPt[2] = math.MinInt32
 	for _, izyxStr := range i {
 		var blockPt ChunkPoint3d
 		blockPt, err = izyxStr.ToChunkPoint3d()
